@@ -86,6 +86,11 @@ func (f *fileDecorator) fragment(node ast.Node) {
 
 			// avoid newlines inside multi-line (back-quoted) strings or bad nodes
 			tokenf := f.Fset.File(astf.Pos())
+			if tokenf == nil {
+				// the file has no position in the file set (e.g. the parser gave up before the
+				// package clause): there are no lines to discover
+				return
+			}
 			for _, frag := range f.fragments {
 				if f.Fset.File(frag.Position()) != tokenf {
 					// fragment of another file of the package: its line numbers mean nothing here
